@@ -1,3 +1,57 @@
 #!/bin/bash
-# placeholder: the mutant self-test runner is filled in once seeded changes exist
-echo '{"ran":0}' > "$2"
+# usage: selftest.sh <Cxx> <out.json>
+# Mutant self-test of one property's checker (thorough tier): every property-breaking change kept under
+# /verif/seeded/<Cxx>-*/patch.diff and every reverted repair under /verif/regress/<Cxx>-*.diff is applied to a scratch
+# copy of /repo's current working tree (outside /repo and /verif, removed immediately afterwards) and analysed with
+# `h5sa -no-evidence -repo <copy>`. An unpatched control copy must produce no finding. Nothing is executed from the library.
+# The result is embedded in the evidence (coverage.mutant_selftest); it never changes the exit code of the check.
+set -u
+PROP="${1:?property}"; OUT="${2:?output json}"
+HERE="$(cd "$(dirname "$0")" && pwd)"
+REPO="${H5SA_REPO:-/repo}"
+export PATH=/opt/veriftools/go1.26.8/bin:$PATH
+export GOTOOLCHAIN=local GOFLAGS=-mod=mod GOPROXY=off GOSUMDB=off GONOSUMDB='*' CGO_ENABLED=0
+unset GOWORK
+BASE="$(mktemp -d /dev/shm/h5sa-st.XXXXXX 2>/dev/null || mktemp -d)"
+trap 'rm -rf "$BASE"' EXIT
+rows=()
+run_one() { # id patchfile(or "-")
+  local id="$1" pf="$2" dir="$BASE/$1"
+  mkdir -p "$dir"
+  rsync -a --exclude .git --exclude testdata --exclude '*.h5' "$REPO/" "$dir/"
+  local applies=true
+  if [ "$pf" != "-" ]; then
+    (cd "$dir" && git apply --whitespace=nowarn "$pf" >/dev/null 2>&1) || applies=false
+  fi
+  local rc=-1 rules=""
+  if $applies; then
+    local out; out="$("$HERE/bin/h5sa" -prop "$PROP" -tier quick -repo "$dir" -verif "$HERE" -no-evidence 2>&1)"; rc=$?
+    rules="$(printf '%s\n' "$out" | sed -n 's/^FINDING property=[A-Z0-9]* rule=\([A-Z0-9.]*\) .*/\1/p' | sort -u | tr '\n' ' ')"
+  fi
+  rm -rf "$dir"
+  rows+=("{\"id\":\"$id\",\"applies\":$applies,\"exit\":$rc,\"rules\":\"${rules% }\"}")
+}
+run_one control -
+for d in "$HERE"/seeded/"$PROP"-*/; do
+  [ -f "$d/patch.diff" ] && run_one "seeded/$(basename "$d")" "$d/patch.diff"
+done
+for f in "$HERE"/regress/"$PROP"-*.diff; do
+  [ -f "$f" ] && run_one "regress/$(basename "$f" .diff)" "$f"
+done
+n=${#rows[@]}
+det=0; stale=0; ctl="false"
+for r in "${rows[@]}"; do
+  case "$r" in
+    *'"id":"control"'*'"exit":0'*) ctl="true" ;;
+    *'"id":"control"'*) ;;
+    *'"applies":false'*) stale=$((stale+1)) ;;
+    *'"exit":1'*) det=$((det+1)) ;;
+  esac
+done
+{
+  printf '{"ran":%d,"control_clean":%s,"changes":%d,"detected":%d,"stale_patches":%d,"details":[' "$n" "$ctl" "$((n-1))" "$det" "$stale"
+  first=1
+  for r in "${rows[@]}"; do [ $first -eq 1 ] || printf ','; first=0; printf '%s' "$r"; done
+  printf ']}\n'
+} > "$OUT"
+echo "selftest $PROP: $det of $((n-1)) changes detected, $stale stale, control clean: $ctl" >&2
